@@ -14,6 +14,8 @@
 #include "quill/sinks/Sink.h"
 
 #include <atomic>
+#include <chrono>
+#include <map>
 #include <mutex>
 #include <thread>
 
@@ -151,8 +153,9 @@ void run_case(Choices& c, Report& r)
     for (unsigned k = 0; k < nsteps; ++k)
     {
       Step s{};
-      switch (c.weighted({6, 2, 1}))
+      switch (c.weighted({6, 2, 1, 2}))
       {
+      case 3: s.kind = 3; s.count = 1 + c.pick(8); total += s.count; break; // churn: short-lived threads logging for the first time
       case 0:
         s.kind = 0;
         s.count = 1u << (4 + c.pick(13)); // 16 .. 65536
@@ -160,7 +163,8 @@ void run_case(Choices& c, Report& r)
         total += s.count;
         break;
       case 1: s.kind = 1; break;
-      default: s.kind = 2; s.count = 1 + c.pick(200); break;
+      case 2: s.kind = 2; s.count = 1 + c.pick(200); break;
+      default: break;
       }
       pl.steps.push_back(s);
     }
@@ -169,6 +173,16 @@ void run_case(Choices& c, Report& r)
          std::to_string(RT_MAX) + " sleep_ns=" + std::to_string(bo.sleep_duration.count()) + " tbuf=" +
          std::to_string(bo.transit_event_buffer_initial_capacity) + " soft=" + std::to_string(bo.transit_events_soft_limit) + " hard=" +
          std::to_string(bo.transit_events_hard_limit) + " threads=" + std::to_string(nthreads) + " statements=" + std::to_string(total));
+
+  // registry-lock jitter: a helper thread that periodically holds the thread-context registry lock for a short while through
+  // the public for_each_thread_context() (models contention / preemption of a lock holder; widens every window around it)
+  unsigned hold_ns = 0;
+  switch (c.pick(3)) { case 1: hold_ns = 3000; break; case 2: hold_ns = 30000; break; default: break; }
+  r.line("lock_jitter_ns=" + std::to_string(hold_ns));
+  if (hold_ns) r.label("registry_lock_jitter");
+  std::mutex churn_m;
+  std::map<int, std::vector<uint8_t>> churn_res;
+  std::atomic<int> next_churn_id{10};
 
   auto sink_sp = RFrontend::create_or_get_sink<RecSink>("rec");
   RecSink* sink = static_cast<RecSink*>(sink_sp.get());
@@ -179,6 +193,28 @@ void run_case(Choices& c, Report& r)
   std::vector<ThreadResult> res(nthreads);
   std::vector<std::thread> ths;
   std::atomic<long> flush_checks{0};
+  std::atomic<bool> jitter_done{false};
+  std::thread jitter;
+  if (hold_ns)
+  {
+    jitter = std::thread(
+      [&]()
+      {
+        while (!jitter_done.load(std::memory_order_relaxed))
+        {
+          bool first = true;
+          quill::detail::ThreadContextManager::instance().for_each_thread_context(
+            [&](quill::detail::ThreadContext*)
+            {
+              if (!first) return;
+              first = false;
+              auto const t0 = std::chrono::steady_clock::now();
+              while (std::chrono::steady_clock::now() - t0 < std::chrono::nanoseconds{hold_ns}) {}
+            });
+          for (int k = 0; k < 20; ++k) std::this_thread::yield();
+        }
+      });
+  }
   for (unsigned t = 0; t < nthreads; ++t)
   {
     ths.emplace_back(
@@ -217,6 +253,24 @@ void run_case(Choices& c, Report& r)
               ++seq;
             }
           }
+          else if (s.kind == 3)
+          {
+            for (uint32_t i = 0; i < s.count; ++i)
+            {
+              int const cid = next_churn_id.fetch_add(1);
+              std::thread(
+                [&, cid]()
+                {
+                  std::string pad = make_pad(cid, 0, 5);
+                  bool ok = false;
+                  try { ok = lg->template log_statement<false, false>(quill::LogLevel::None, &kMd, static_cast<uint16_t>(cid), 0u, pad); }
+                  catch (quill::QuillError const&) {}
+                  std::lock_guard<std::mutex> lk(churn_m);
+                  churn_res[cid] = std::vector<uint8_t>{static_cast<uint8_t>(ok ? 1 : 0)};
+                })
+                .join();
+            }
+          }
           else if (s.kind == 1)
           {
             lg->flush_log(100);
@@ -241,21 +295,26 @@ void run_case(Choices& c, Report& r)
       });
   }
   for (auto& t : ths) t.join();
+  jitter_done = true;
+  if (jitter.joinable()) jitter.join();
   quill::Backend::stop();
 
   // ---- oracles at quiescence ----
   for (auto const& R : res) if (!R.error.empty()) { r.fail(R.error); break; }
-  std::vector<uint32_t> next(nthreads + 1, 0);
+  std::map<int, std::vector<uint8_t>> accmap = churn_res;
+  for (unsigned t = 0; t < nthreads; ++t) accmap[static_cast<int>(t) + 1] = res[t].accepted;
+  std::map<int, uint32_t> next;
   long delivered = 0, dropped = 0, attempted = 0, threw = 0;
-  for (unsigned t = 0; t < nthreads; ++t)
-    for (auto a : res[t].accepted) { ++attempted; if (a == 0) ++dropped; else if (a == 2) ++threw; }
+  for (auto const& kv : accmap)
+    for (auto a : kv.second) { ++attempted; if (a == 0) ++dropped; else if (a == 2) ++threw; }
+  if (!churn_res.empty()) r.label("thread_churn");
   {
     std::lock_guard<std::mutex> lk(sink->m);
     for (auto const& e : sink->entries)
     {
       if (r.failed) break;
-      if (!e.ok || e.w < 1 || e.w > static_cast<int>(nthreads)) { r.fail("sink received a corrupted / unparsable statement"); break; }
-      auto const& acc = res[e.w - 1].accepted;
+      if (!e.ok || !accmap.count(e.w)) { r.fail("sink received a corrupted / unparsable statement"); break; }
+      auto const& acc = accmap[e.w];
       if (e.seq >= acc.size()) { r.fail("sink received statement " + std::to_string(e.w) + ":" + std::to_string(e.seq) + " that was never issued"); break; }
       if (acc[e.seq] != 1) { r.fail("statement " + std::to_string(e.w) + ":" + std::to_string(e.seq) + " was written although its log call returned false (reported dropped AND delivered)"); break; }
       // exactly once, in order: the next accepted seq of this thread
@@ -273,12 +332,12 @@ void run_case(Choices& c, Report& r)
   }
   if (!r.failed)
   {
-    for (unsigned t = 0; t < nthreads; ++t)
+    for (auto const& kv : accmap)
     {
-      uint32_t n = next[t + 1];
-      auto const& acc = res[t].accepted;
+      uint32_t n = next[kv.first];
+      auto const& acc = kv.second;
       while (n < acc.size() && acc[n] != 1) ++n;
-      if (n < acc.size()) { r.fail("thread " + std::to_string(t + 1) + ": accepted statement #" + std::to_string(n) + " never written after Backend::stop() (lost)"); break; }
+      if (n < acc.size()) { r.fail("thread " + std::to_string(kv.first) + ": accepted statement #" + std::to_string(n) + " never written after Backend::stop() (lost)"); break; }
     }
   }
   long reported = 0;
